@@ -35,7 +35,7 @@ def instrCond : E :=
   .and_ (.eq (.var 3) (.num 0)) (.le (.var 4) (.add (.sub (.len (.var 1)) (.len (.var 2))) (.num 1)))
 
 theorem instr_shape : ecb_instr.body =
-    [.assign 3 (.num 0), .assign 4 (.fix (.var 0)), .while_ instrCond instrBody] := by rfl
+    [.assign 4 (.fix (.var 0)), .assign 3 (.num 0), .while_ instrCond instrBody] := by rfl
 
 /-- loop invariant: nothing found yet and no match in `[start, ii)`, or the answer is in `out` -/
 def InstrInv (start : Nat) (s p : List Char) (out ii : Int) : Prop :=
@@ -143,8 +143,8 @@ theorem instr_correct (valFn : List Char → Int) (start : Nat) (s p : List Char
     instr_loop valFn start s p hs [] ((if (0 : Int) = 0 then ((s.length : Int) - p.length + 2 - start).toNat else 0))
       0 start (by omega) (Or.inl ⟨rfl, by omega, by intro i hi hlt; omega⟩) (Nat.le_refl _)
   refine ⟨res, ii', hr0, hspec, ?_⟩
-  refine Exec.assign (v := .n 0) (by simp [evalE]) ?_
   refine Exec.assign (v := .n start) (by simp [evalE]) ?_
+  refine Exec.assign (v := .n 0) (by simp [evalE]) ?_
   simpa using hex _ (Exec.nil _)
 
 /-- the procedure as it was before the repair, on concrete arguments (interpreter runs on the old
@@ -159,11 +159,12 @@ theorem instr_old_witnesses :
     ∧ exec (fun _ => 0) 100 ecb_instr.body [.n 1, .s "ABAB".toList, .s "AB".toList, .n 77, .n 0]
       = some (.ok [.n 1, .s "ABAB".toList, .s "AB".toList, .n 1, .n 2]) := by decide
 
-/-- the FOR loop of `ecb_string`, from the loop test onwards -/
+/-- the FOR loop of `ecb_string` (it starts at 2 and appends the first character of what it has built), from the loop
+test onwards: with `x - 1` copies in the result and the counter at `x`, it ends with `count` copies -/
 theorem string_loop (valFn : List Char → Int) (count : Int) (c : Char) (cs : List Char) (rest : List S) (r : Res) :
-    ∀ (k : Nat) (x : Int), 1 ≤ x → x ≤ count + 1 → (count + 1 - x).toNat = k →
+    ∀ (k : Nat) (x : Int), 2 ≤ x → x ≤ count + 1 → (count + 1 - x).toNat = k →
       Exec valFn rest [.n count, .s (c :: cs), .s (List.replicate count.toNat c), .n (count + 1)] r →
-      Exec valFn (.forGo 3 count [.assign 2 (.add (.var 2) (.mid (.var 1) (.num 1) (.num 1)))] :: rest)
+      Exec valFn (.forGo 3 count [.assign 2 (.add (.var 2) (.mid (.var 2) (.num 1) (.num 1)))] :: rest)
         [.n count, .s (c :: cs), .s (List.replicate (x - 1).toNat c), .n x] r := by
   intro k
   induction k with
@@ -177,7 +178,12 @@ theorem string_loop (valFn : List Char → Int) (count : Int) (c : Char) (cs : L
       intro x hx1 hx2 hk hrest
       have hle : x ≤ count := by omega
       refine Exec.forGoT (x := x) (by simp) hle ?_
-      refine Exec.assign (v := .s (List.replicate (x - 1).toNat c ++ [c])) (by simp [evalE]) ?_
+      have hpos : (x - 1).toNat = ((x - 1).toNat - 1) + 1 := by omega
+      have hmid : evalE valFn [.n count, .s (c :: cs), .s (List.replicate (x - 1).toNat c), .n x]
+          (.add (.var 2) (.mid (.var 2) (.num 1) (.num 1))) = .val (.s (List.replicate (x - 1).toNat c ++ [c])) := by
+        rw [hpos, List.replicate_succ]
+        simp [evalE]
+      refine Exec.assign (v := .s (List.replicate (x - 1).toNat c ++ [c])) hmid ?_
       refine Exec.incr (x := x) (by simp) ?_
       have hrep : List.replicate (x - 1).toNat c ++ [c] = List.replicate (x + 1 - 1).toNat c := by
         have : (x + 1 - 1).toNat = (x - 1).toNat + 1 := by omega
@@ -190,16 +196,33 @@ theorem string_loop (valFn : List Char → Int) (count : Int) (c : Char) (cs : L
 character of the argument, `count` times (whatever the output and loop variables held before). -/
 theorem string_correct (valFn : List Char → Int) (count : Int) (c : Char) (cs out0 : List Char) (i0 : Int)
     (hc : 0 ≤ count) :
-    Exec valFn ecb_string.body [.n count, .s (c :: cs), .s out0, .n i0]
-      (.ok [.n count, .s (c :: cs), .s (stringRep count.toNat (c :: cs)), .n (count + 1)]) := by
+    ∃ i', Exec valFn ecb_string.body [.n count, .s (c :: cs), .s out0, .n i0]
+      (.ok [.n count, .s (c :: cs), .s (stringRep count.toNat (c :: cs)), .n i']) := by
   unfold ecb_string stringRep
   have hlt : ¬ count < 0 := by omega
-  refine Exec.iteF (by simp [evalE, cmp, hlt]; omega) ?_
-  refine Exec.assign (v := .s []) (by simp [evalE]) ?_
-  refine Exec.for_ (x := 1) (y := count) (by simp [evalE]) (by simp [evalE]) ?_
-  have := string_loop valFn count c cs [] (.ok [.n count, .s (c :: cs), .s (List.replicate count.toNat c), .n (count + 1)])
-    (count + 1 - 1).toNat 1 (by omega) (by omega) rfl (Exec.nil _)
-  simpa using this
+  by_cases h0 : count = 0
+  · -- no copies: the first character is taken, the loop does not run, the result is cleared
+    subst h0
+    refine ⟨2, ?_⟩
+    refine Exec.iteF (by simp [evalE, cmp]; omega) ?_
+    refine Exec.assign (v := .s [c]) (by simp [evalE]) ?_
+    refine Exec.for_ (x := 2) (y := 0) (by simp [evalE]) (by simp [evalE]) ?_
+    refine Exec.forGoF (x := 2) (by simp) (by omega) ?_
+    refine Exec.iteT (by simp [evalE, cmp]) ?_
+    refine Exec.assign (v := .s []) (by simp [evalE]) ?_
+    simpa using Exec.nil _
+  · refine ⟨count + 1, ?_⟩
+    have h1 : 1 ≤ count := by omega
+    refine Exec.iteF (by simp [evalE, cmp, hlt]; omega) ?_
+    refine Exec.assign (v := .s [c]) (by simp [evalE]) ?_
+    refine Exec.for_ (x := 2) (y := count) (by simp [evalE]) (by simp [evalE]) ?_
+    have hfin : Exec valFn [.ite (.eq (.var 0) (.num 0)) [.assign 2 (.str "".toList)] []]
+        [.n count, .s (c :: cs), .s (List.replicate count.toNat c), .n (count + 1)]
+        (.ok [.n count, .s (c :: cs), .s (List.replicate count.toNat c), .n (count + 1)]) := by
+      refine Exec.iteF (by simp [evalE, cmp, h0]) ?_
+      exact Exec.nil _
+    have := string_loop valFn count c cs _ _ (count + 1 - 2).toNat 2 (by omega) (by omega) rfl hfin
+    simpa using this
 
 /-- …and it raises error 52 (Color BASIC's ?FC ERROR) for a negative count or an empty argument. -/
 theorem string_error (valFn : List Char → Int) (count : Int) (str out0 : List Char) (i0 : Int)
@@ -214,5 +237,7 @@ theorem string_error (valFn : List Char → Int) (count : Int) (str out0 : List 
 /-- the premises are satisfiable and the run really terminates: `STRING$(3, "AB")` = "AAA" -/
 example : exec (fun _ => 0) 100 ecb_string.body [.n 3, .s "AB".toList, .s [], .n 0]
     = some (.ok [.n 3, .s "AB".toList, .s "AAA".toList, .n 4]) := by decide
+example : exec (fun _ => 0) 100 ecb_string.body [.n 0, .s "AB".toList, .s "OLD".toList, .n 0]
+    = some (.ok [.n 0, .s "AB".toList, .s [], .n 2]) := by decide
 
 end CocoVerif.Props.C20
